@@ -524,6 +524,7 @@ type FuncContract struct {
 	Line     int
 	File     string
 	LoopHavoc map[int][]string
+	After     map[int][]string // loop N then-assigns: the frame of the code that runs after loop N has finished
 	Unroll   map[int]int
 	Opts     map[string]string
 }
@@ -657,7 +658,7 @@ func (c *Contracts) ParseContractText(text, file, pkgPath string) error {
 			cur, curLemma = nil, nil
 		case "func", "extern":
 			fc := &FuncContract{Pkg: pkgPath, Line: rc.line, File: file, Extern: kw == "extern",
-				LoopHavoc: map[int][]string{}, Unroll: map[int]int{}, Opts: map[string]string{}}
+				LoopHavoc: map[int][]string{}, After: map[int][]string{}, Unroll: map[int]int{}, Opts: map[string]string{}}
 			if kw == "extern" {
 				name, ps, rs, err := parseExternSig(rest)
 				if err != nil {
@@ -859,6 +860,15 @@ func (c *Contracts) ParseContractText(text, file, pkgPath string) error {
 					}
 				case "havoc":
 					cur.LoopHavoc[n] = append(cur.LoopHavoc[n], strings.Fields(strings.ReplaceAll(body, ",", " "))...)
+				case "then-assigns":
+					// loop N then-assigns a, b | nothing: what the code after loop N may still write
+					lst := []string{}
+					if body != "nothing" {
+						for _, a := range strings.Split(body, ",") {
+							lst = append(lst, strings.TrimSpace(a))
+						}
+					}
+					cur.After[n] = lst
 				case "unroll":
 					var k int
 					fmt.Sscanf(body, "%d", &k)
